@@ -43,7 +43,8 @@ PROBES_REQUIRED = ["fault_fired", "chroot_called", "ids_dropped"]
 FAULT_POINTS = ["bind", "load_cert_chain", "getpwnam", "getgrnam", "chroot", "chdir", "setgroups",
                 "setregid", "setreuid"]
 ERRORS = ["EPERM", "EINVAL", "KeyError"]
-PRIV_CALLS = ("chroot", "setgroups", "setregid", "setreuid", "setuid", "setgid", "setresuid", "setresgid")
+PRIV_CALLS = ("chroot", "setgroups", "setregid", "setreuid", "setuid", "setgid", "setresuid", "setresgid",
+              "seteuid", "setegid")
 
 
 def _applies(opts, point):
@@ -76,6 +77,10 @@ def SWEEP(tier):
                                     "detach": detach, "servertype": st, "uid": 1234, "gid": 4321,
                                     "user": "gopher", "group": "gophers", "port": 70}
                             out.append({"opts": opts, "fault": None})
+                            # other start credentials / ports for the no-fault row
+                            out.append({"opts": dict(opts, start="setuid-root-binary"), "fault": None})
+                            out.append({"opts": dict(opts, port=7070), "fault": None})
+                            out.append({"opts": dict(opts, port=7070), "fault": {"point": "bind", "error": "EINVAL"}})
                             for pt in FAULT_POINTS:
                                 if not _applies(opts, pt):
                                     continue
@@ -94,7 +99,8 @@ def gen(seed, index, tier):
             "uid": rng.choice([1, 65534, 1000, 33]), "gid": rng.choice([1, 65534, 1000, 33]),
             "user": rng.choice(["gopher", "nobody", "www-data"]),
             "group": rng.choice(["gophers", "nogroup", "www-data"]),
-            "port": rng.choice([70, 7070, 443])}
+            "port": rng.choice([70, 7070, 443, 1024, 1023]),
+            "start": rng.choice(["root", "root", "setuid-root-binary"])}
     fault = None
     if rng.random() < 0.5:
         pts = [p for p in FAULT_POINTS if _applies(opts, p)]
@@ -115,8 +121,14 @@ class Model:
         self.fault = fault
         self.calls = []
         self.fired = False
+        # effective ids are what the privilege checks look at; real and saved ids are tracked too
         self.uid = 0
         self.gid = 0
+        self.ruid = self.suid = 0
+        self.rgid = self.sgid = 0
+        if opts.get("start") == "setuid-root-binary":
+            # started by the target user through a set-uid-root executable: only the effective ids are 0
+            self.ruid, self.rgid = opts["uid"], opts["gid"]
         self.groups = [0, 4, 24]
         self.root_real = "/"
         self.cwd_real = start_cwd
@@ -201,28 +213,76 @@ class Model:
     def setregid(self, r, e):
         self.rec("setregid", r, e)
         self._maybe_fail("setregid")
-        if self.uid != 0 and not (r in (self.gid, -1) and e in (self.gid, -1)):
+        if self.uid != 0 and not (r in (self.rgid, self.gid, -1) and e in (self.rgid, self.gid, self.sgid, -1)):
             raise PermissionError(errno.EPERM, "Operation not permitted")
-        self.gid = e if e != -1 else self.gid
+        if r != -1:
+            self.rgid = r
+        if e != -1:
+            self.gid = e
+        if r != -1 or (e != -1 and e != self.rgid):
+            self.sgid = self.gid
 
     def setreuid(self, r, e):
         self.rec("setreuid", r, e)
         self._maybe_fail("setreuid")
-        if self.uid != 0 and not (r in (self.uid, -1) and e in (self.uid, -1)):
+        if self.uid != 0 and not (r in (self.ruid, self.uid, -1) and e in (self.ruid, self.uid, self.suid, -1)):
             raise PermissionError(errno.EPERM, "Operation not permitted")
-        self.uid = e if e != -1 else self.uid
+        if r != -1:
+            self.ruid = r
+        if e != -1:
+            self.uid = e
+        if r != -1 or (e != -1 and e != self.ruid):
+            self.suid = self.uid
 
     def setgid(self, g):
-        self.setregid(g, g)
+        self.rec("setgid", g)
+        self._maybe_fail("setregid")
+        if self.uid == 0:
+            self.rgid = self.gid = self.sgid = g
+        elif g in (self.rgid, self.sgid):
+            self.gid = g
+        else:
+            raise PermissionError(errno.EPERM, "Operation not permitted")
 
     def setuid(self, u):
-        self.setreuid(u, u)
+        self.rec("setuid", u)
+        self._maybe_fail("setreuid")
+        if self.uid == 0:
+            self.ruid = self.uid = self.suid = u
+        elif u in (self.ruid, self.suid):
+            self.uid = u
+        else:
+            raise PermissionError(errno.EPERM, "Operation not permitted")
+
+    def setegid(self, g):
+        self.rec("setegid", g)
+        self._maybe_fail("setregid")
+        if self.uid != 0 and g not in (self.rgid, self.gid, self.sgid):
+            raise PermissionError(errno.EPERM, "Operation not permitted")
+        self.gid = g
+
+    def seteuid(self, u):
+        self.rec("seteuid", u)
+        self._maybe_fail("setreuid")
+        if self.uid != 0 and u not in (self.ruid, self.uid, self.suid):
+            raise PermissionError(errno.EPERM, "Operation not permitted")
+        self.uid = u
 
     def setresgid(self, r, e, s):
-        self.setregid(r, e)
+        self.rec("setresgid", r, e, s)
+        self._maybe_fail("setregid")
+        if self.uid != 0:
+            raise PermissionError(errno.EPERM, "Operation not permitted")
+        self.rgid, self.gid, self.sgid = (r if r != -1 else self.rgid, e if e != -1 else self.gid,
+                                          s if s != -1 else self.sgid)
 
     def setresuid(self, r, e, s):
-        self.setreuid(r, e)
+        self.rec("setresuid", r, e, s)
+        self._maybe_fail("setreuid")
+        if self.uid != 0:
+            raise PermissionError(errno.EPERM, "Operation not permitted")
+        self.ruid, self.uid, self.suid = (r if r != -1 else self.ruid, e if e != -1 else self.uid,
+                                          s if s != -1 else self.suid)
 
     def cwd_inside_root(self):
         r = self.root_real.rstrip("/")
@@ -310,8 +370,15 @@ def execute(sc, tape=None):
             patch(pwd, "getpwnam", m.getpwnam)
             patch(grp, "getgrnam", m.getgrnam)
             for n in ("chroot", "chdir", "setgroups", "setregid", "setreuid", "setuid", "setgid",
-                      "setresuid", "setresgid"):
+                      "setresuid", "setresgid", "seteuid", "setegid"):
                 patch(os, n, getattr(m, n))
+            patch(os, "getuid", lambda: m.ruid)
+            patch(os, "geteuid", lambda: m.uid)
+            patch(os, "getgid", lambda: m.rgid)
+            patch(os, "getegid", lambda: m.gid)
+            patch(os, "getgroups", lambda: list(m.groups))
+            patch(os, "getresuid", lambda: (m.ruid, m.uid, m.suid))
+            patch(os, "getresgid", lambda: (m.rgid, m.gid, m.sgid))
             patch(sys, "stdout", out)
             try:
                 result["server"] = harness.pyg.initialization.initialize(confp)
@@ -371,20 +438,20 @@ def execute(sc, tape=None):
                         viol = V("groups-cleared", "setgroups(()) expected exactly once")
                     else:
                         later = [i for i, n in enumerate(names) if n in ("setregid", "setreuid", "setuid", "setgid",
-                                                                          "setresuid", "setresgid")]
+                                                                          "setresuid", "setresgid", "seteuid", "setegid")]
                         if later and min(later) < gi:
                             viol = V("groups-before-ids", "supplementary groups must be cleared before ids change")
                 if viol is None and opts["setgid"]:
-                    gcalls = [c for c in calls if c[0] in ("setregid", "setgid", "setresgid")]
-                    if len(gcalls) != 1 or m.gid != opts["gid"]:
-                        viol = V("group-changed", "gid=%r after start-up, expected %r" % (m.gid, opts["gid"]))
+                    if (m.rgid, m.gid, m.sgid) != (opts["gid"],) * 3:
+                        viol = V("group-changed", "real/effective/saved gid = %r after start-up, expected %r"
+                                 % ((m.rgid, m.gid, m.sgid), opts["gid"]))
                 if viol is None and opts["setuid"]:
-                    ucalls = [c for c in calls if c[0] in ("setreuid", "setuid", "setresuid")]
-                    if len(ucalls) != 1 or m.uid != opts["uid"]:
-                        viol = V("user-changed", "uid=%r after start-up, expected %r" % (m.uid, opts["uid"]))
+                    if (m.ruid, m.uid, m.suid) != (opts["uid"],) * 3:
+                        viol = V("user-changed", "real/effective/saved uid = %r after start-up, expected %r"
+                                 % ((m.ruid, m.uid, m.suid), opts["uid"]))
                     elif opts["setgid"]:
-                        gfirst = min(i for i, n in enumerate(names) if n in ("setregid", "setgid", "setresgid"))
-                        ufirst = min(i for i, n in enumerate(names) if n in ("setreuid", "setuid", "setresuid"))
+                        gfirst = min([i for i, n in enumerate(names) if n in ("setregid", "setgid", "setresgid", "setegid")] or [10 ** 6])
+                        ufirst = min([i for i, n in enumerate(names) if n in ("setreuid", "setuid", "setresuid", "seteuid")] or [10 ** 6])
                         if ufirst < gfirst:
                             viol = V("group-before-user", "the group must be changed before the user")
                 if viol is None:
@@ -420,7 +487,7 @@ def execute(sc, tape=None):
         shape = None
         if nontrivial:
             shape = [opts["chroot"], opts["setuid"], opts["setgid"], opts["tls"], opts["detach"],
-                     opts["servertype"], sc["fault"]["point"] if sc["fault"] else None,
+                     opts["servertype"], opts.get("start", "root"), opts["port"] < 1024, sc["fault"]["point"] if sc["fault"] else None,
                      sc["fault"]["error"] if sc["fault"] else None]
         norm = [[(a.replace(base, "<BASE>") if isinstance(a, str) else a) for a in c] for c in calls]
         dig = common.digest(norm, repr(type(result["exc"]).__name__ if result["exc"] else None))
